@@ -53,6 +53,7 @@ def scopes(tier):
         ("movepkg", sc("WorldsMovePkg", "import,importas,from,fromas,rel", 2, 1, 3, mg, qforms="import,from,rel",
                        qsize=one)),
         ("movesib", sc("WorldsMoveSib", "import", 2, 1, 3, mg, MaxChain=2)),
+        ("movepkgrel", sc("WorldsMovePkgRel", "from,rel", 2, 1, 3, mg)),
         ("movedeep", sc("WorldsMoveDeep", "import,from", 2, 1, 3, mg, MaxChain=2)),
         ("relocsame", sc("WorldsRelocSame", "import,importas,from", 1, 1, 2, rl)),
         ("relocdeep", sc("WorldsRelocDeep", "import,from", 1, 1, 2, mg + rl, features=("reloutside",))),
@@ -75,7 +76,7 @@ def scopes(tier):
 def quick_limit(name):
     """the quick tier replays every program of at most two statements and, per scope, this many
     larger ones (seeded); the small sibling-name scope is replayed completely"""
-    return 1000 if name in ("movesib", "relocdeep", "movedeep", "relocsame") else 60
+    return 1000 if name in ("movesib", "relocdeep", "movedeep", "relocsame", "movepkgrel") else 60
 
 
 def act_key(act):
